@@ -82,13 +82,14 @@ fn scenario(seq: i64, seq_dec: &[u8], with_salt: bool) {
 //@ cap: 1800
 //@ also: C03
 //@ desc: MutableItem::from_dht_message(target, k, v, seq, sig, salt) = Ok(item) iff the signature oracle said valid for exactly (k, bencode-signable(salt, seq, v), sig) AND target = SHA1(k || salt) (the target function abstracted; bound to SHA-1 over k || salt by C02.O1t); the item carries k, seq, v, salt, sig -- instance seq = 1, no salt
-//@ bounds: k = a concrete valid Ed25519 key; target 20 symbolic bytes; sig 64 symbolic bytes; v 1 symbolic byte; symbolic verdict; seq = 1 (format! of a symbolic i64 does not finish); unwind 130 (field pow2k of the concrete key decompression)
-//@ stubs: <VerifyingKey as Verifier<Signature>>::verify -> oracle with pre-drawn verdict, query recorded; MutableItem::target_from_key -> uninterpreted function of (k, salt) (that it is SHA-1 over k || salt: C02.O1t)
+//@ bounds: k = a concrete valid Ed25519 key; target 20 symbolic bytes; sig 64 symbolic bytes; v 1 symbolic byte; symbolic verdict; seq = 1 (format! of a symbolic i64 does not finish); unwind 66 (signature compare)
+//@ stubs: <VerifyingKey as Verifier<Signature>>::verify -> oracle with pre-drawn verdict, query recorded; VerifyingKey::from_bytes -> wraps the 32 bytes without point decompression (real decompression: C02.O1f and native replay); MutableItem::target_from_key -> uninterpreted function of (k, salt) (that it is SHA-1 over k || salt: C02.O1t)
 //@ functions: MutableItem::from_dht_message, mutable::encode_signable, MutableItem::target_from_key, VerifyingKey::try_from (real), Signature::from_slice, sha1_smol (real)
 #[kani::proof]
 #[kani::stub(<ed25519_dalek::VerifyingKey as ed25519_dalek::Verifier<ed25519_dalek::Signature>>::verify, oracle::verify_stub)]
 #[kani::stub(MutableItem::target_from_key, target_uf)]
-#[kani::unwind(130)]
+#[kani::stub(ed25519_dalek::VerifyingKey::from_bytes, oracle::from_bytes_wrap)]
+#[kani::unwind(66)]
 fn c02_o1a_from_dht_message_seq1_nosalt() {
     scenario(1, b"1", false);
 }
@@ -99,12 +100,13 @@ fn c02_o1a_from_dht_message_seq1_nosalt() {
 //@ also: C03
 //@ desc: same as C02.O1a with seq = -1 and a 1-byte symbolic salt: an item for another salt (target of a different salt) is rejected
 //@ bounds: as C02.O1a; salt 1 symbolic byte; seq = -1
-//@ stubs: <VerifyingKey as Verifier<Signature>>::verify -> oracle; MutableItem::target_from_key -> uninterpreted function of (k, salt) (that it is SHA-1 over k || salt: C02.O1t)
+//@ stubs: <VerifyingKey as Verifier<Signature>>::verify -> oracle; VerifyingKey::from_bytes -> wrap without decompression; MutableItem::target_from_key -> uninterpreted function of (k, salt) (that it is SHA-1 over k || salt: C02.O1t)
 //@ functions: MutableItem::from_dht_message, mutable::encode_signable, MutableItem::target_from_key
 #[kani::proof]
 #[kani::stub(<ed25519_dalek::VerifyingKey as ed25519_dalek::Verifier<ed25519_dalek::Signature>>::verify, oracle::verify_stub)]
 #[kani::stub(MutableItem::target_from_key, target_uf)]
-#[kani::unwind(130)]
+#[kani::stub(ed25519_dalek::VerifyingKey::from_bytes, oracle::from_bytes_wrap)]
+#[kani::unwind(66)]
 fn c02_o1b_from_dht_message_neg_salt() {
     scenario(-1, b"-1", true);
 }
@@ -115,12 +117,13 @@ fn c02_o1b_from_dht_message_neg_salt() {
 //@ also: C03
 //@ desc: same with seq = i64::MIN (longest decimal text), no salt
 //@ bounds: as C02.O1a; seq = i64::MIN
-//@ stubs: <VerifyingKey as Verifier<Signature>>::verify -> oracle; MutableItem::target_from_key -> uninterpreted function of (k, salt) (that it is SHA-1 over k || salt: C02.O1t)
+//@ stubs: <VerifyingKey as Verifier<Signature>>::verify -> oracle; VerifyingKey::from_bytes -> wrap without decompression; MutableItem::target_from_key -> uninterpreted function of (k, salt) (that it is SHA-1 over k || salt: C02.O1t)
 //@ functions: MutableItem::from_dht_message, mutable::encode_signable
 #[kani::proof]
 #[kani::stub(<ed25519_dalek::VerifyingKey as ed25519_dalek::Verifier<ed25519_dalek::Signature>>::verify, oracle::verify_stub)]
 #[kani::stub(MutableItem::target_from_key, target_uf)]
-#[kani::unwind(130)]
+#[kani::stub(ed25519_dalek::VerifyingKey::from_bytes, oracle::from_bytes_wrap)]
+#[kani::unwind(66)]
 fn c02_o1c_from_dht_message_min() {
     scenario(i64::MIN, b"-9223372036854775808", false);
 }
@@ -131,12 +134,13 @@ fn c02_o1c_from_dht_message_min() {
 //@ also: C03
 //@ desc: same with seq = i64::MAX and a salt
 //@ bounds: as C02.O1a; seq = i64::MAX; salt 1 symbolic byte
-//@ stubs: <VerifyingKey as Verifier<Signature>>::verify -> oracle; MutableItem::target_from_key -> uninterpreted function of (k, salt) (that it is SHA-1 over k || salt: C02.O1t)
+//@ stubs: <VerifyingKey as Verifier<Signature>>::verify -> oracle; VerifyingKey::from_bytes -> wrap without decompression; MutableItem::target_from_key -> uninterpreted function of (k, salt) (that it is SHA-1 over k || salt: C02.O1t)
 //@ functions: MutableItem::from_dht_message, mutable::encode_signable
 #[kani::proof]
 #[kani::stub(<ed25519_dalek::VerifyingKey as ed25519_dalek::Verifier<ed25519_dalek::Signature>>::verify, oracle::verify_stub)]
 #[kani::stub(MutableItem::target_from_key, target_uf)]
-#[kani::unwind(130)]
+#[kani::stub(ed25519_dalek::VerifyingKey::from_bytes, oracle::from_bytes_wrap)]
+#[kani::unwind(66)]
 fn c02_o1d_from_dht_message_max_salt() {
     scenario(i64::MAX, b"9223372036854775807", true);
 }
